@@ -1,7 +1,8 @@
 """C03 - URL matching agrees with the declarative meaning of the rules (structural clauses).
 
-Eight rules.  None of them interprets the per-part regular expressions or the
-backtracking search as a language recogniser: what is decided is the priority
+Ten rules.  R3.1-R3.8 do not interpret the per-part regular expressions or the
+backtracking search as a language recogniser (R3.9 / R3.10 do, on sample maps and
+paths only, by symbolic execution of the source): what is decided is the priority
 order, the 405 bookkeeping of the rule loops, the mapping of NoMatch onto HTTP
 exceptions, that a converter's late rejection does not end the search, that
 the weight of a rule part is frozen once it was built, that the retry on the
@@ -38,6 +39,7 @@ from ..dataflow import ReachingDefs
 from ..fold import Folder, RegexConst, Unfoldable, matches_const
 from ..loader import AnalysisError, ClassInfo, FuncInfo, dotted, norm, walk_no_nested
 from ..report import Ctx
+from . import _c04_helpers as _I
 from ._c03_helpers import DATA, HelperResolver, PartSite, StateFlow, TailFlow, Walker, bind_call, flat, is_opaque, is_s, re_function, show, subst, truthy_polarity
 
 LEVEL_TEXT = (
@@ -75,8 +77,17 @@ LEVEL_TEXT = (
     "something its converter accepts; (R3.8) writer / reader agreement on the trailing slash of a final (slash-consuming) part - on no path does the "
     "regex of a part built with final=True end in a mandatory '/' (the matcher tells match, slash redirect and strict_slashes apart only after "
     "the regex matched the path without the slash, so the optional-slash suffix may not depend on strict_slashes or anything else), and a "
-    "part built with suffixed=True ends in a last capturing group that matches '' and '/' (the matcher reads the slash from the last group). "
-    "Not decided: that the compiled per-part regular "
+    "part built with suffixed=True ends in a last capturing group that matches '' and '/' (the matcher reads the slash from the last group); "
+    "(R3.9) a rule written without strict_slashes / merge_slashes carries, once bound, the map's setting of the same name - read back from the "
+    "rules of sample maps under all four map-level combinations; (R3.10) decided on samples only, by symbolic execution of the routing source "
+    "(the AST interpreter of _c04_helpers; maps, rules and request paths concrete, werkzeug never imported or run): for the sample maps listed in "
+    "the module - three rules under each of the four strict_slashes x merge_slashes map settings against doubled, trailing and missing slashes; "
+    "request paths with one, two and three leading slashes (all routed like the path with one); every length option of the string converter alone and "
+    "combined, int, int(fixed_digits), float, any, uuid, path and a literally decorated variable at the boundaries of what the option admits; a "
+    "priority map (literal / int / string / path, a rule the search has to back out of) in both insertion orders; GET / POST / PUT against rules "
+    "with method sets - MapAdapter.match answers with exactly what the rule strings denote: the endpoint and converted arguments, the redirect to "
+    "the merged or slash-completed path, NotFound, or MethodNotAllowed with the admitted rules' methods. "
+    "Not decided: anything about maps and paths outside those samples beyond R3.1-R3.8, in particular that the compiled per-part regular "
     "expressions plus backtracking accept exactly the language the rule grammar denotes (regex / state-machine "
     "semantics: the converters' own patterns, the named groups, escaping of literals, what precedes the end of a part's regex, that the empty static part "
     "follows a suffixed part), "
@@ -89,6 +100,7 @@ TRUSTED = [
     "the statement-level CFG of the engine (short-circuit conditions split into atoms)",
     "re: `match` anchors a pattern at the start only, `fullmatch` at both ends, `search` at neither; `\\Z` matches only at the very end of the string",
     "R3.8: the re engine run on a suffix of a regex constant folded from the parser's source, against '' and '/'",
+    "R3.9 / R3.10: the symbolic interpreter in wzsa/rules/_c04_helpers.py (Python semantics of the subset it models, the stdlib - re, uuid, urllib - called on concrete values; anything it does not model aborts with ANALYSIS-ERROR)",
 ]
 ASSUMPTIONS = [
     "converters are the classes deriving from routing.converters.BaseConverter inside the package; user converters are outside the claim",
@@ -106,6 +118,7 @@ ASSUMPTIONS = [
     "R3.7 / R3.8: every piece appended to a part's regex is a regex fragment of its own (escaped literal text, a converter's pattern wrapped in a group, a constant), so the known end of the text decides how the whole regex ends (no alternation at top level, no class left open)",
     "R3.7 / R3.8: the abstract execution follows bool flags and strings; the known end of a string is cut to 16 characters and three repetitions of a character; an unknown callee that is handed a followed string, or a rule part changed after it was built, is exit 2; a violation that hangs on a condition over followed values the evaluator cannot read is exit 2, one that hangs on input (`self.<attr>`, parameters, match results) is a violation",
     "R3.7: the applications of a part's `content` are those in StateMachineMatcher.match (and the functions nested in it); when the matcher looks at the end position of the match object, a missing end anchor is exit 2",
+    "R3.9 / R3.10: the reference answer of a sample is written next to it and follows the documented meaning of the rule strings and of strict_slashes / merge_slashes (a doubled slash is answered with a redirect to the merged path when the map merges slashes and with NotFound when it does not; a branch rule visited without its slash redirects under strict_slashes; leading slashes of the request path do not count); the adapter is bound to server_name 'example.org', script root '/'; samples keep clear of the known R3.4 defect (a converter's late rejection is never the only thing between a path and another rule)",
 ]
 
 MATCHER = "routing.matcher.StateMachineMatcher"
@@ -3089,6 +3102,274 @@ def _optional_slash_group(tail: str) -> bool | None:
 
 
 # ----------------------------------------------------------------------
+# R3.9 / R3.10: sample maps and paths of the property's grammar, answered by symbolic execution of the source
+#
+# The interpreter of _c04_helpers runs the routing source on its syntax trees (werkzeug is never imported).  Here the
+# whole configuration and the request paths are concrete, so a run has exactly one path and its outcome is a value:
+# (endpoint, arguments), a redirect target, NotFound, or MethodNotAllowed with its methods.  The outcome is compared
+# with what the rule strings denote (the reference is written next to every case).  Nothing in this section looks at
+# how the routing code is spelled.
+
+_UUID_TEXT = "12345678-9abc-4def-8123-456789abcdef"
+_HOST = "example.org"
+
+
+def _M(endpoint: str, **values: t.Any) -> tuple:
+    return ("match", endpoint, values)
+
+
+def _RD(path: str) -> tuple:
+    return ("redirect", f"http://{_HOST}{path}")
+
+
+_NF: tuple = ("notfound",)
+
+
+def _405(*methods: str) -> tuple:
+    return ("405", frozenset(methods))
+
+
+def _flag_samples() -> list[dict[str, t.Any]]:
+    out = []
+    for strict in (True, False):
+        for merge in (True, False):
+            out.append({
+                "id": f"map flags strict_slashes={strict}, merge_slashes={merge}", "group": "flags", "map_kw": {"strict_slashes": strict, "merge_slashes": merge},
+                "rules": [("/a/b", {"endpoint": "ab"}), ("/d/", {"endpoint": "d"}), ("/p/<int:n>/c", {"endpoint": "pc"})],
+                "inherit": {"strict_slashes": strict, "merge_slashes": merge},
+                "cases": [
+                    ("/a/b", None, _M("ab"), "the leaf rule /a/b admits its own path"),
+                    ("/d/", None, _M("d"), "the branch rule /d/ admits its own path"),
+                    ("/p/7/c", None, _M("pc", n=7), "/p/<int:n>/c admits /p/7/c"),
+                    ("/a//b", None, _RD("/a/b") if merge else _NF, "a doubled slash: with merge_slashes the merged path /a/b is admitted (answer: redirect to it), without it no rule admits the path"),
+                    ("/p/7//c", None, _RD("/p/7/c") if merge else _NF, "a doubled slash behind a variable: redirect to the merged path under merge_slashes, no rule otherwise"),
+                    ("/p//7/c", None, _RD("/p/7/c") if merge else _NF, "a doubled slash before a variable: redirect to the merged path under merge_slashes, no rule otherwise"),
+                    ("/a/b/", None, _NF if strict else _M("ab"), "a leaf rule admits the path with a trailing slash only when strict_slashes is off"),
+                    ("/d", None, _RD("/d/") if strict else _M("d"), "a branch rule visited without its slash: redirect under strict_slashes, plain match otherwise"),
+                    ("/a", None, _NF, "a proper prefix of a rule is admitted by no rule"),
+                ],
+            })
+    return out
+
+
+def _norm_samples() -> list[dict[str, t.Any]]:
+    out = []
+    for merge in (True, False):
+        out.append({
+            "id": f"leading slashes, merge_slashes={merge}", "group": "norm", "map_kw": {"merge_slashes": merge},
+            "rules": [("/a", {"endpoint": "a"}), ("/b/<int:n>", {"endpoint": "b"}), ("/d/", {"endpoint": "d"}), ("/<path:rest>/end", {"endpoint": "e"})],
+            "cases": [
+                (k * "/" + rest, None, exp, f"a request path with {k} leading slash(es) is routed like the path with one")
+                for rest, exp in (("a", _M("a")), ("b/5", _M("b", n=5)), ("d/", _M("d")), ("zz", _NF), ("x/y/end", _M("e", rest="x/y")))
+                for k in (1, 2, 3)
+            ],
+        })
+    return out
+
+
+_CONVERTER_SAMPLE: dict[str, t.Any] = {
+    "id": "converter options", "group": "conv", "map_kw": {},
+    "rules": [
+        ("/t/<v>", {"endpoint": "t"}), ("/s/<string(minlength=2):v>", {"endpoint": "s"}), ("/l/<string(length=2):v>", {"endpoint": "l"}),
+        ("/x/<string(maxlength=2):v>", {"endpoint": "x"}), ("/r/<string(minlength=2, maxlength=3):v>", {"endpoint": "r"}),
+        ("/i/<int:n>", {"endpoint": "i"}), ("/fd/<int(fixed_digits=2):n>", {"endpoint": "fd"}), ("/fl/<float:x>", {"endpoint": "fl"}),
+        ("/any/<any(about, help):k>", {"endpoint": "any"}), ("/u/<uuid:u>", {"endpoint": "u"}), ("/w/pre<int:n>post", {"endpoint": "w"}),
+        ("/files/<path:p>", {"endpoint": "files"}),
+    ],
+    "cases": [
+        ("/t/a", None, _M("t", v="a"), "<v> admits a non-empty segment"),
+        ("/t/a/b", None, _NF, "<v> admits one segment, not two"),
+        ("/t/", None, _NF, "<v> does not admit the empty segment"),
+        ("/s/a", None, _NF, "string(minlength=2) does not admit 1 character"),
+        ("/s/ab", None, _M("s", v="ab"), "string(minlength=2) admits 2 characters"),
+        ("/s/abcdefgh", None, _M("s", v="abcdefgh"), "string(minlength=2) has no upper bound"),
+        ("/l/a", None, _NF, "string(length=2) does not admit 1 character"),
+        ("/l/ab", None, _M("l", v="ab"), "string(length=2) admits 2 characters"),
+        ("/l/abc", None, _NF, "string(length=2) does not admit 3 characters"),
+        ("/x/a", None, _M("x", v="a"), "string(maxlength=2) admits 1 character"),
+        ("/x/ab", None, _M("x", v="ab"), "string(maxlength=2) admits 2 characters"),
+        ("/x/abc", None, _NF, "string(maxlength=2) does not admit 3 characters"),
+        ("/r/a", None, _NF, "string(minlength=2, maxlength=3) does not admit 1 character"),
+        ("/r/ab", None, _M("r", v="ab"), "string(minlength=2, maxlength=3) admits 2 characters"),
+        ("/r/abc", None, _M("r", v="abc"), "string(minlength=2, maxlength=3) admits 3 characters"),
+        ("/r/abcd", None, _NF, "string(minlength=2, maxlength=3) does not admit 4 characters"),
+        ("/i/12", None, _M("i", n=12), "int admits digits"),
+        ("/i/-1", None, _NF, "int (unsigned) does not admit a sign"),
+        ("/i/1.5", None, _NF, "int does not admit a fraction"),
+        ("/i/1x", None, _NF, "int does not admit a segment that merely starts with digits"),
+        ("/fd/7", None, _NF, "int(fixed_digits=2) does not admit 1 digit"),
+        ("/fd/07", None, _M("fd", n=7), "int(fixed_digits=2) admits 2 digits"),
+        ("/fd/007", None, _NF, "int(fixed_digits=2) does not admit 3 digits"),
+        ("/fl/1.5", None, _M("fl", x=1.5), "float admits digits.digits"),
+        ("/fl/1", None, _NF, "float does not admit an integer"),
+        ("/any/about", None, _M("any", k="about"), "any(about, help) admits an item"),
+        ("/any/help", None, _M("any", k="help"), "any(about, help) admits an item"),
+        ("/any/abou", None, _NF, "any(about, help) does not admit a prefix of an item"),
+        ("/any/aboutx", None, _NF, "any(about, help) does not admit an item with a suffix"),
+        ("/u/" + _UUID_TEXT, None, ("match", "u", {"u": ("uuid", _UUID_TEXT)}), "uuid admits a canonical UUID"),
+        ("/u/1234", None, _NF, "uuid does not admit other text"),
+        ("/w/pre5post", None, _M("w", n=5), "literal decoration around a variable"),
+        ("/w/pre5", None, _NF, "the literal suffix is required"),
+        ("/w/5post", None, _NF, "the literal prefix is required"),
+        ("/files/a", None, _M("files", p="a"), "path admits one segment"),
+        ("/files/a/b", None, _M("files", p="a/b"), "path admits several segments"),
+    ],
+}
+
+
+def _priority_samples() -> list[dict[str, t.Any]]:
+    rules = [("/<path:p>", {"endpoint": "path"}), ("/<s>", {"endpoint": "str"}), ("/<int:n>", {"endpoint": "int"}), ("/lit", {"endpoint": "lit"}), ("/<s>/x", {"endpoint": "strx"}), ("/lit/<int:n>", {"endpoint": "litn"})]
+    cases = [
+        ("/lit", None, _M("lit"), "a literal segment beats every variable"),
+        ("/12", None, _M("int", n=12), "int beats string and path"),
+        ("/ab", None, _M("str", s="ab"), "string beats path; int does not admit it"),
+        ("/a/b", None, _M("path", p="a/b"), "only the path rule admits two free segments"),
+        ("/a/x", None, _M("strx", s="a"), "<s>/x beats <path:p>"),
+        ("/lit/3", None, _M("litn", n=3), "literal first segment + int beats path"),
+        ("/lit/x", None, _M("strx", s="lit"), "the literal branch does not admit /lit/x, <s>/x does: the search has to come back"),
+    ]
+    return [{"id": f"priority, insertion order {name}", "group": "prio", "map_kw": {}, "rules": rs, "cases": cases} for name, rs in (("as written", rules), ("reversed", rules[::-1]))]
+
+
+_METHOD_SAMPLE: dict[str, t.Any] = {
+    "id": "methods", "group": "405", "map_kw": {},
+    "rules": [("/m", {"endpoint": "mg", "methods": ["GET"]}), ("/m", {"endpoint": "mp", "methods": ["POST"]}), ("/o/<int:n>", {"endpoint": "o", "methods": ["POST"]}), ("/any", {"endpoint": "all"})],
+    "cases": [
+        ("/m", "GET", _M("mg"), "the GET rule"),
+        ("/m", "POST", _M("mp"), "the POST rule"),
+        ("/m", "PUT", _405("GET", "HEAD", "POST"), "rules admit /m, none for PUT: 405 listing their methods"),
+        ("/o/5", "GET", _405("POST"), "the rule admits /o/5 but not GET"),
+        ("/o/x", "GET", _NF, "no rule admits /o/x, whatever the method"),
+        ("/any", "PUT", _M("all"), "a rule without methods takes every method"),
+    ],
+}
+
+
+def _exc_name(e: t.Any) -> str:
+    c = getattr(e, "cls", None)
+    return c.cls.name if isinstance(c, _I.ClsVal) else getattr(c, "__name__", str(c))
+
+
+def _run_sample(repo: t.Any, sc: dict[str, t.Any]) -> dict[str, t.Any]:
+    """one world: the sample map is built and bound once, every case is one MapAdapter.match call."""
+
+    def scen(w: t.Any) -> dict[str, t.Any]:
+        Map, Rule = w.resolve_fq("werkzeug.routing.Map"), w.resolve_fq("werkzeug.routing.Rule")
+        if not isinstance(Map, _I.ClsVal) or not isinstance(Rule, _I.ClsVal):
+            raise AnalysisError("werkzeug.routing.Map / Rule do not resolve to classes")
+        rules = [w.call(Rule, [string], {k: (list(v) if isinstance(v, list) else v) for k, v in kw.items()}) for string, kw in sc["rules"]]
+        m = w.call(Map, [rules], dict(sc["map_kw"]))
+        ad = w.call(w.getattr(m, "bind"), [_HOST], {})
+        flags: dict[str, list[t.Any]] = {}
+        for name in sc.get("inherit", {}):
+            flags[name] = [w.getattr(r, name) for r in w.iterate(w.call(w.getattr(m, "iter_rules"), [], {}))]
+        seen = []
+        for path, method, _exp, _why in sc["cases"]:
+            try:
+                rv = w.call(w.getattr(ad, "match"), [path], {"method": method} if method else {})
+            except _I.Raised as r:
+                e = r.exc
+                nm = _exc_name(e)
+                if nm == "RequestRedirect":
+                    seen.append(("redirect", e.args[0] if e.args else e.attrs.get("new_url")))
+                elif nm == "NotFound":
+                    seen.append(_NF)
+                elif nm == "MethodNotAllowed":
+                    vm = e.attrs.get("valid_methods")
+                    seen.append(("405", frozenset(vm) if isinstance(vm, (list, tuple, set, frozenset)) and _I.deep_concrete(vm) else vm))
+                else:
+                    seen.append(("raises", nm))
+                continue
+            if isinstance(rv, tuple) and len(rv) == 2 and isinstance(rv[1], dict) and _I.deep_concrete(rv):
+                seen.append(("match", rv[0], dict(rv[1])))
+            else:
+                seen.append(("returns", _I._key(rv)[:120]))
+        return {"seen": seen, "flags": flags}
+
+    outs = _I.explore(scen, repo)
+    if len(outs) != 1:
+        raise AnalysisError(f"sample {sc['id']}: the concrete sample forked on {[c[0][:80] for c in outs[0].conds]}")
+    if outs[0].kind != "return":
+        e = outs[0].value
+        raise AnalysisError(f"sample {sc['id']}: building / binding the sample map raised {_exc_name(e)}{e.args!r}")
+    return outs[0].value
+
+
+def _same_outcome(seen: tuple, want: tuple) -> bool:
+    if seen[0] != want[0] or len(seen) != len(want):
+        return False
+    if want[0] != "match":
+        return seen == want
+    if seen[1] != want[1] or set(seen[2]) != set(want[2]):
+        return False
+    for k, wv in want[2].items():
+        sv = seen[2][k]
+        if isinstance(wv, tuple) and wv[0] == "uuid":
+            import uuid
+
+            if not (isinstance(sv, uuid.UUID) and str(sv) == wv[1]):
+                return False
+        elif type(sv) is not type(wv) or sv != wv:
+            return False
+    return True
+
+
+def _show_outcome(o: tuple) -> str:
+    if o[0] == "match":
+        return f"match {o[1]!r} {o[2]!r}"
+    if o[0] == "redirect":
+        return f"redirect to {o[1]!r}"
+    if o[0] == "notfound":
+        return "NotFound"
+    if o[0] == "405":
+        return f"MethodNotAllowed {sorted(o[1]) if isinstance(o[1], frozenset) else o[1]!r}"
+    return " ".join(str(x) for x in o)
+
+
+_SAMPLE_WHERE = {
+    "flags": ("routing.rules.Rule.bind", "routing.map.MapAdapter.match"),
+    "norm": ("routing.map.MapAdapter.match",),
+    "conv": ("routing.rules.Rule._parse_rule", "routing.rules.Rule.compile", "routing.map.MapAdapter.match"),
+    "prio": ("routing.matcher.StateMachineMatcher.match", "routing.map.MapAdapter.match"),
+    "405": ("routing.matcher.StateMachineMatcher.match", "routing.map.MapAdapter.match"),
+}
+
+
+def _r39_r310(ctx: Ctx) -> None:
+    repo = ctx.repo
+    samples = [*_flag_samples(), *_norm_samples(), _CONVERTER_SAMPLE, *_priority_samples(), _METHOD_SAMPLE]
+    n_cases = n_flags = 0
+    for sc in samples:
+        where: FuncInfo | str = next((f for f in (repo.try_func(fq) for fq in _SAMPLE_WHERE[sc["group"]]) if f is not None), _SAMPLE_WHERE[sc["group"]][0])
+        node = where.node if isinstance(where, FuncInfo) else None
+        try:
+            res = _run_sample(repo, sc)
+        except AnalysisError as exc:  # this sample is not understood; the others still count
+            ctx.error(f"R3.10 sample {sc['id']}: {exc}")
+            continue
+        mk = ", ".join(f"{k}={v}" for k, v in sc["map_kw"].items())
+        for name, want in sc.get("inherit", {}).items():
+            got = res["flags"][name]
+            n_flags += 1
+            ctx.ob(
+                "R3.9", f"Map({mk}): a rule written without `{name}` takes the map's `{name}`", bool(got) and all(g is want for g in got),
+                f"after binding, rule.{name} of the {len(got)} sample rules is {got}; the map was created with {name}={want}"
+                + ("" if got and all(g is want for g in got) else f" - the rule-level flag decides the trailing-slash / merged-slash answer for the rule, so the map-level `{name}` is lost or replaced by another setting"),
+                where, node, f"inherited {name} under {mk}",
+            )
+        for (path, method, want, why), seen in zip(sc["cases"], res["seen"]):
+            n_cases += 1
+            ok = _same_outcome(seen, want)
+            ctx.ob(
+                "R3.10", f"sample ({sc['id']}): {method or 'GET'} {path}", ok,
+                f"rules {[r for r, _ in sc['rules']]}{' on Map(' + mk + ')' if mk else ''}: the source answers {_show_outcome(seen)}; the rules denote {_show_outcome(want)} ({why})",
+                where, node, f"sample {sc['id']}: {method or 'GET'} {path}",
+            )
+    ctx.floor("R3.9", "inherited rule flags read back from bound sample rules", n_flags, 8)
+    ctx.floor("R3.10", "sample paths answered", n_cases, 100)
+
+
+# ----------------------------------------------------------------------
 
 
 def run(ctx: Ctx) -> None:
@@ -3100,6 +3381,8 @@ def run(ctx: Ctx) -> None:
     ctx.rule("R3.6", "the path with repeated slashes merged (and the retry of the search on it) is used only under the map-level merge_slashes flag")
     ctx.rule("R3.7", "writer/reader agreement on anchoring: the matcher applies a dynamic part's regex from the start of the path segment, and unless it applies it with fullmatch every path through the parser that builds a dynamic part ends its regex in the end-of-string anchor")
     ctx.rule("R3.8", "writer/reader agreement on the trailing slash of a final part: its regex never requires the slash, and a part marked suffixed ends in a last group capturing the optional slash")
+    ctx.rule("R3.9", "a rule written without strict_slashes / merge_slashes is bound with the map's setting of the same name (read back from sample rules under all four map-level combinations)")
+    ctx.rule("R3.10", "sample maps and request paths of the property's grammar (map flags x doubled / trailing slashes, leading slashes, each converter option at its boundaries, priority in both insertion orders, methods), answered by symbolic execution of the source, get the answer the rule strings denote")
     m = _Matcher(ctx)
     # R3.1
     _r31_order(ctx, m)
@@ -3120,6 +3403,8 @@ def run(ctx: Ctx) -> None:
     _r36(ctx, m)
     # R3.7, R3.8
     _r37_r38(ctx, m)
+    # R3.9, R3.10
+    _r39_r310(ctx)
 
 
 def run_thorough(ctx: Ctx) -> None:
